@@ -234,13 +234,15 @@ def plan(pid: str, tier: str, seed: int) -> dict:
                               + ([] if quick else [{"kind": "crash", "prog": p, "points": pts}
                                                    for p in progs
                                                    for pts in chunks(range(1, refs[p["name"]]["commits"] + 1, 2), 24)]),
-            mc=[(n, {"AnyOrder": "TRUE", "MaxWithhold": 1, "MaxAttempts": 3}, {}) for n in ("tr1", "tr3", "tr8", "trnc3", "poll4")]
-               + [(n, {"AnyOrder": "FALSE", "MaxAttempts": 10}, {}) for n in ("tr9", "tr12", "trnc12", "trlast")],
+            mc=[(n, {"AnyOrder": "TRUE", "MaxWithhold": 1}, {}) for n in ("tr1", "tr3", "trnc3", "poll4", "trmid")]
+               + [(n, {"AnyOrder": "FALSE"}, {}) for n in ("tr8", "tr9", "tr12", "trnc12", "trlast")]
+               # the intended design (retry row carries the attempt count) satisfies the bound
+               + [(n, {"AnyOrder": "FALSE", "FixRetry": "TRUE"}, {"intended": True}) for n in ("tr9", "tr12", "trnc12")],
             ref_as_trace=True,
         )
     if pid == "C15":
         progs = loop_family()
-        nseed = 6 if quick else 60
+        nseed = 3 if quick else 60
         return dict(
             progs=progs, props=["C15_JumpBudget", "C15_RearmExact", "C15_OncePerIteration", "C05_QuietMeansDone",
                                 "C02_SameOutcome", "C02_ExecExact"],
@@ -248,7 +250,7 @@ def plan(pid: str, tier: str, seed: int) -> dict:
                                for p in progs for s in ([seed],)]
                               + [{"kind": "schedule", "prog": p, "seeds": s, "opts": {"p_withhold": 0.1}}
                                  for p in progs for s in chunks(range(seed * 1000, seed * 1000 + nseed), 6)],
-            mc=[(n, {"AnyOrder": "TRUE"}, {}) for n in ("self_m1_n3", "self_m3_n2", "cyc2_n4", "cyc3", "loopfanin", "fwd")]
+            mc=[(n, {"AnyOrder": "TRUE"}, {}) for n in ("self_m1_n3", "self_m3_n3", "cyc2_n4", "cyc3", "loopfanin", "fwd")]
                + [(n, {"AnyOrder": "TRUE", "MaxWithhold": 1}, {"depth": 80}) for n in ("self_m1_n1", "cyc2_n1")],
             ref_as_trace=True,
         )
@@ -261,8 +263,10 @@ def plan(pid: str, tier: str, seed: int) -> dict:
                               + [{"kind": "schedule", "prog": p, "seeds": [seed * 1000 + c],
                                   "opts": {"p_withhold": 0.1, "cancel_at": c}}
                                  for p in progs for c in range(1, refs[p["name"]]["steps"] + 2, 1 if not quick else 2)],
-            mc=[(n, {"AnyOrder": "TRUE", "MaxCancels": 1}, {}) for n in ("chain2", "diamond", "multitask", "failbranch")]
-               + [(n, {"AnyOrder": "TRUE", "MaxCancels": 1, "MaxWithhold": 1}, {"depth": 60}) for n in ("chain2", "poll")],
+            mc=[(n, {"AnyOrder": "TRUE", "MaxCancels": 1}, {}) for n in ("chain2", "multitask", "poll")]
+               + [(n, {"AnyOrder": "FALSE", "MaxCancels": 1}, {}) for n in ("diamond", "failbranch", "selfloop", "firstof")]
+               + [("chain2", {"AnyOrder": "TRUE", "MaxCancels": 1, "MaxWithhold": 1}, {})]
+               + ([] if quick else [(n, {"AnyOrder": "TRUE", "MaxCancels": 1}, {"depth": 70}) for n in ("diamond", "failbranch")]),
         )
     raise KeyError(pid)
 
@@ -304,7 +308,11 @@ def run(pid: str, tier: str, seed: int) -> int:
     if missing:
         refs.update(ec.references(list({p["name"]: p for p in missing}.values())))
     for (n, consts, kw) in pl["mc"]:
-        mc_tasks.append((mcprogs[n], refs[n], consts, pl["props"], dict(kw)))
+        kw = dict(kw)
+        props = pl["props"]
+        if kw.pop("intended", False):   # model of the repaired design: only the formula the defect breaks
+            props = [p for p in props if p in ("C14_Bounded",)]
+        mc_tasks.append((mcprogs[n], refs[n], consts, props, kw))
     mcs = ec.model_check_all(mc_tasks, par=4)
     t_mc = time.time() - t0 - t_gen - t_val
 
